@@ -92,7 +92,7 @@ ALLP = EASY + ("NLDrude", "NLDrude2")
 GRIDS = {
     (3, 4640): {"easy": (8, 12), "NLDrude": (12, 16), "NLDrude2": (16, 24)},
     (3, 2900): {"easy": (12, 16), "NLDrude": (16, 24), "NLDrude2": (24, 32)},
-    (2, 2400): {"easy": (24, 36), "NLDrude": (36, 54), "NLDrude2": (48, 72)},
+    (2, 2400): {"easy": (24, 36), "NLDrude": (36, 54), "NLDrude2": (72, 108)},   # (48,72) leaves 0.02-0.036 (seed-dependent)
     (2, 1200): {"easy": (48, 72), "NLDrude": (48, 72)},
     (2, 600): {"easy": (96, 144), "NLDrude": (96, 144)},
 }
@@ -119,7 +119,10 @@ def plan(tier):
             continue                      # 2 x 24^3 k-points for the f'' form: thorough only
         add("zoo3d_2", p, 4640, GRIDS[(3, 4640)])
     for p in (("BerryDipole", "GME_orb", "GME_spin") if quick else ALLP):
-        add("zoo3d_3", p, 4640, GRIDS[(3, 4640)])
+        if p == "NLDrude":
+            out.append(("zoo3d_3", p, 4640, 16, 24))     # 0.028 of the scale left at 16^3 with three bands
+        else:
+            add("zoo3d_3", p, 4640, GRIDS[(3, 4640)])
     for p in ("Ohmic", "Hall_classic", "NLDrude"):
         add("Chiral", p, 4640, CHIRAL_GRIDS[4640])
     if not quick:
